@@ -71,4 +71,14 @@ Proof.
     apply ranges_all. fold (in_loop (renumber b0)). rewrite lok_in_loop. exact E.
 Qed.
 
+(* the bounded theorem of BuilderBounded is an instance (every enumerated body is a renumbered body) *)
+Lemma all_bodies_renumbered b : In b all_bodies -> exists b0, b = renumber b0.
+Proof.
+  unfold all_bodies. intro H. apply in_flat_map in H. destruct H as (n & _ & H). unfold bodies in H.
+  apply in_map_iff in H. destruct H as (b0 & <- & _). exists b0. reflexivity.
+Qed.
+
+Corollary ranges_cover_only_dead_all_bodies : forallb check_ranges all_bodies = true.
+Proof. apply forallb_forall. intros b Hb. destruct (all_bodies_renumbered b Hb) as (b0 & ->). apply ranges_cover_only_dead. Qed.
+
 Print Assumptions ranges_cover_only_dead.
